@@ -237,12 +237,17 @@ RegisterAll(s, aw) ==
 \* workchains.Waiting.exit: remove the done-callbacks of the futures still awaited
 Unregister(s) == [s EXCEPT !.awt = [i \in DOMAIN @ |-> IF i \in s.awaiting THEN [@[i] EXCEPT !.reg = FALSE] ELSE @[i]]]
 
+\* F7: Waiting.exit resolves a waiting future that is still pending: an execute() blocked on it (the process was
+\*     failed from outside the step) is released and finds the process terminated
+ReleaseWait(s) == IF "F7" \in Fixes /\ s.wf.st = "pending"
+                  THEN Wake([s EXCEPT !.wf = [st |-> "result", val |-> "NULL", cookie |-> 0]], "awaitWF") ELSE s
+
 ExitCurrent(s, new) ==                    \* _exit_current_state
   IF new.label \notin Allowed(s.st) THEN Err(s, "RuntimeError")
   ELSE LET a == IF s.closed THEN Ok(s, None)       \* close() dropped the event callbacks
                 ELSE Then(OnExiting(s), LAMBDA t : Hook(t, "cb_exiting"))
        IN IF a.exc # NoExc THEN a
-          ELSE Ok(IF a.s.st = "WAITING" THEN Unregister(a.s) ELSE a.s, None)      \* self._state.do_exit()
+          ELSE Ok(IF a.s.st = "WAITING" THEN ReleaseWait(Unregister(a.s)) ELSE a.s, None)      \* self._state.do_exit()
 
 EnterNext(s, new) ==                      \* _enter_next_state
   LET last == s.st
